@@ -104,6 +104,24 @@ Theorem C18_sqlite_refuted_root_memory :
                  /\ ~ sqlite_roundtrips path.
 Proof. exact (@refuted_sqlite_root_memory). Qed.
 
+(* ---- sequences of opens in one process (the per-URI connection cache) ------ *)
+
+(* For every sequence of connectionForURI calls, every call hands out a
+   connection with the filename that opening its URI alone would give: the
+   cache, keyed by the URI text, never substitutes another database. *)
+Theorem C18_open_sequence :
+  forall (nt : bool) (uris : list str), open_seq nt [] uris = map (open_uri nt) uris.
+Proof. exact (@open_sequence). Qed.
+
+(* ... in particular, whatever was opened before, the URI a sqlite connection
+   reports for itself still opens that connection's file. *)
+Theorem C18_sqlite_after_any_history :
+  forall (path : str) (uris : list str) (u : str),
+    valid_text path = true -> is_abs path = true \/ path = memory_name ->
+    path <> 47 :: memory_name -> sqlite_uri path = ROk u ->
+    nth_error (open_seq false [] (uris ++ [u])) (length uris) = Some (ROk path).
+Proof. exact (@sqlite_after_any_history). Qed.
+
 (* ---- non-vacuity: the hypotheses hold on concrete non-trivial inputs, and the
    model computes the non-trivial answers there ------------------------------- *)
 (* user "u@:/é" password "p w#€" host "Ho.St%Z" port 3306 db "/d?b#" *)
@@ -179,6 +197,14 @@ Print Assumptions C18_roundtrip_refuted_params.
 Print Assumptions C18_roundtrip_refuted_password_without_user.
 Print Assumptions C18_bad_port_build.
 Print Assumptions C18_bad_port_rejected.
+Example C18_open_sequence_example :
+  open_seq false [] [lit "sqlite:///d/data.db?timeout=30"; lit "sqlite:///d/data.db%3Ftimeout%3D30";
+                     lit "sqlite:///d/data.db?timeout=30"]
+  = [ROk (lit "/d/data.db"); ROk (lit "/d/data.db?timeout=30"); ROk (lit "/d/data.db")].
+Proof. vm_compute. reflexivity. Qed.
+
+Print Assumptions C18_open_sequence.
+Print Assumptions C18_sqlite_after_any_history.
 Print Assumptions C18_sqlite_partial.
 Print Assumptions C18_sqlite_refuted.
 Print Assumptions C18_sqlite_refuted_root_memory.
